@@ -497,6 +497,7 @@ func main() {
 	files = append(files, genFieldShape(byDir)...)
 	files = append(files, genScanProgs(byDir)...)
 	files = append(files, genCurProgs(byDir)...)
+	files = append(files, genTwins(byDir)...)
 	files = append(files, genFilterPure(byDir)...)
 	files = append(files, genColorShape(byDir)...)
 	files = append(files, genSkipShape(byDir)...)
